@@ -24,6 +24,8 @@ struct Inner {
     skips: BTreeMap<String, u64>,
     violations: Vec<Violation>,
     violation_count: u64,
+    /// occurrences per signature (every occurrence, also those not kept as witnesses)
+    sig_counts: BTreeMap<String, u64>,
     obligations: Vec<(String, bool, String)>,
     inconclusive: Vec<String>,
     extra: Map<String, Value>,
@@ -38,6 +40,8 @@ pub struct Report {
     pub args: Args,
     start: Instant,
     inner: Mutex<Inner>,
+    /// open known findings of this property (signature -> description), loaded once at start
+    known: BTreeMap<String, String>,
 }
 
 const MAX_SAMPLES: usize = 6;
@@ -51,6 +55,7 @@ impl Report {
             args: args.clone(),
             start: Instant::now(),
             inner: Mutex::new(Inner::default()),
+            known: load_known(&args.root.join("known_findings.json"), id),
         }
     }
 
@@ -156,14 +161,20 @@ impl Report {
         let mut g = self.lock();
         g.violation_count += 1;
         // keep at most a few per signature and a global cap
+        *g.sig_counts.entry(signature.to_string()).or_insert(0) += 1;
         let same = g.violations.iter().filter(|v| v.signature == signature).count();
-        if g.violations.len() < MAX_KEPT_VIOLATIONS && same < 5 {
+        // the first witness of a NEW signature is always kept (a flood of known signatures must not
+        // crowd out an unknown one)
+        if (g.violations.len() < MAX_KEPT_VIOLATIONS && same < 5) || (same == 0 && g.sig_counts.len() < 1000) {
             g.violations.push(Violation { signature: signature.to_string(), detail });
         }
     }
 
+    /// occurrences of violations whose signature is NOT an open known finding (what caps and early
+    /// exits should look at: a flood of known findings must not cut a run short)
     pub fn violation_count(&self) -> u64 {
-        self.lock().violation_count
+        let g = self.lock();
+        g.sig_counts.iter().filter(|(k, _)| !self.known.contains_key(*k)).map(|(_, n)| *n).sum()
     }
 
     /// A coverage obligation: unmet ⇒ the run is inconclusive (exit 2), never "held".
@@ -178,14 +189,14 @@ impl Report {
     /// Write evidence, print verdict lines, return the process exit code.
     pub fn finish(&self) -> i32 {
         let g = self.lock();
-        let known = load_known(&self.args.root.join("known_findings.json"), &self.id);
+        let known = &self.known;
 
         // classify violations
         let mut known_hit: BTreeMap<String, (String, u64)> = BTreeMap::new();
         let mut fresh: Vec<&Violation> = vec![];
         for v in &g.violations {
             if let Some(desc) = known.get(&v.signature) {
-                known_hit.entry(v.signature.clone()).or_insert((desc.clone(), 0)).1 += 1;
+                known_hit.entry(v.signature.clone()).or_insert((desc.clone(), g.sig_counts.get(&v.signature).copied().unwrap_or(1)));
             } else {
                 fresh.push(v);
             }
@@ -267,7 +278,7 @@ impl Report {
             "coverage": Value::Object(cov),
             "assumptions": g.assumptions,
             "wall_s": self.start.elapsed().as_secs_f64(),
-            "violations": g.violation_count as i64 - known_hit.values().map(|x| x.1 as i64).sum::<i64>(),
+            "violations": g.sig_counts.iter().filter(|(k, _)| !known.contains_key(*k)).map(|(_, n)| *n as i64).sum::<i64>(),
         });
         if is_stage {
             println!("EVIDENCE-JSON: {}", serde_json::to_string(&ev).unwrap_or_default());
